@@ -133,8 +133,12 @@ vx_emit_atom(A) :-
         length(Cs, L),
         put_char(a), write(L), put_char(:),
         vx_put_chars(Cs)
-    ;   atom_length(A, L) ->
-        put_char(a), write(L), put_char(:), write(A)
+    ;   catch(write_term_to_chars(A, [], Cs1), _, fail) ->
+        % length and text taken from the same character list, so that the
+        % record stays parsable whatever the cell really holds
+        length(Cs1, L1),
+        put_char(a), write(L1), put_char(:),
+        vx_put_chars(Cs1)
     ;   put_char(a), write(1), put_char(:), put_char(?)
     ).
 
